@@ -17,7 +17,7 @@ from harness.lib.coqrun import qlit, zlit, blit, listlit, run_mismatch_cases
 from harness.lib.ctx import guarded
 
 REQ = "From HV Require Import Common.Generic Common.Cmp C12.Model.\nOpen Scope Q_scope.\n"
-TOL = "(1 # 10000000000)"          # 1e-10 relative (values >= 1) / absolute (values < 1); observed rounding <= 4e-14
+TOL = "(1 # 10000000000)"          # 1e-10 relative (values >= 1) / absolute (values < 1); observed rounding between 1e-15 and 1e-14 (no mismatch at 1e-14, some at 1e-15)
 DEFS = """
 Definition relclose (tol x k : Q) : bool := Qle_bool (Qabs' (x - k)) (tol * Qabs' k).
 (* oracle table: value of the python primitive at the (float) argument nearest to the requested one *)
@@ -459,7 +459,7 @@ def oval_lit(v):
     return "(OS %s)" % qlit(v)
 
 
-def case_prefix(d, b, fvals, largest, sel):
+def case_prefix(d, b, fvals, fsub, largest, sel):
     """Gallina `let` prefix defining M, D, vals, run-time oracles for one case"""
     order = b["order"]
     idx = {pid: i for i, pid in enumerate(order)}
@@ -506,19 +506,22 @@ def case_prefix(d, b, fvals, largest, sel):
     else:
         kind = "(@Exact Q)"
     f = "None" if fvals is None else "(Some %s)" % listlit([qlit(x) for x in fvals])
+    f2 = "f" if fsub == fvals else ("None" if fsub is None else "(Some %s)" % listlit([qlit(x) for x in fsub]))
     pre = ("let lnT := tab %s in let sqT := tab %s in let piq := %s in\n"
            "let vals := %s in let ps := %s in\n"
            "let mk := (fun v : list Q => map (read QO v) %s) in let rad := (fun s : list Q => s) in\n"
            "let cs : list (list Q -> bool) := %s in\n"
            "let M := @mkModel Q (list Q) %s ps cs %s (%s, %s, %s) in\n"
            "let D := @mkData Q unit tt %s %s (%s, %s, %s) in\n"
-           "let f : option (list Q) := %s in\n"
+           "let f : option (list Q) := %s in let fS : option (list Q) := %s in\n"
            "let px : option (list nat) := %s in\n"
            "let ch := (fun (_ : unit) (_ : list Q) (_ : unit) (_ : optics Q) (_ : Q) => f) in\n"
            "let cf := (fun (_ : unit) (_ : list Q) (_ : unit) (_ : optics Q) => f) in\n"
+           "let chS := (fun (_ : unit) (_ : list Q) (_ : unit) (_ : optics Q) (_ : Q) => fS) in\n"
+           "let cfS := (fun (_ : unit) (_ : list Q) (_ : unit) (_ : optics Q) => fS) in\n"
            "let ds := (fun (dd : unit) (_ : list nat) => dd) in\n"
            % (lntab, sqtab, qlit(math.pi), vals, priors, listlit(rsl), cons, kind, mn, mo[0], mo[1], mo[2],
-              listlit([qlit(x) for x in d["data_vals"]]), dnl, do[0], do[1], do[2], f,
+              listlit([qlit(x) for x in d["data_vals"]]), dnl, do[0], do[1], do[2], f, f2,
               "None" if sel is None else "(Some %s)" % listlit(["%d%%nat" % i for i in sel])))
     return pre
 
@@ -660,8 +663,10 @@ def run_case(ctx, d, exprs, metas, tag):
     ctx.nontriv((d["kind"], d["single"], pclass, ll[0] if ll[0] == "err" else "v", d["noise"] is None,
                  str(d["data_noise"])[:3], d["pixels"] is None, d["fraction"] is None, len(d["priors"])))
     # ---- Coq expressions
-    pre_all = case_prefix(d, b, fvals, largest, None)
-    pre_sub = case_prefix(d, b, fsub, largest, sel)
+    if d["fail"] is not None:
+        fvals = fsub = None
+    prefix = case_prefix(d, b, fvals, fsub, largest, sel)
+    pre_all = ""
     LP = "lnprior QO lnT sqT piq mk rad cs ps vals"
     e = []
     if lp[0] == "val":
@@ -683,11 +688,9 @@ def run_case(ctx, d, exprs, metas, tag):
     e.append(("find_optics", pre_all + "res_agree op_eqb (%s) %s" % (FO, fol)))
     skip_ll = ll[0] == "val" and fvals is None and d["fail"] is None
     if can_count and not skip_ll:
-        fl = case_prefix(d, b, None, largest, None) if d["fail"] is not None else pre_all
-        e.append(("lnlike", fl + "run_agree (lnlike QO lnT piq mk rad (fun _ => tt) ch cf M vals D 0%%Z) %s %s" % (
+        e.append(("lnlike", "run_agree (lnlike QO lnT piq mk rad (fun _ => tt) ch cf M vals D 0%%Z) %s %s" % (
             "(IErr %s)" % zlit(ll[1]) if ll[0] == "err" else impl_ext(ll[1]), zlit(ll_calls))))
-        fp = case_prefix(d, b, None, largest, sel) if d["fail"] is not None else pre_sub
-        e.append(("lnposterior", fp + "run_agree (lnposterior QO lnT sqT piq mk rad (fun _ => tt) ch cf ds M vals D px 0%%Z) %s %s" % (
+        e.append(("lnposterior", "run_agree (lnposterior QO lnT sqT piq mk rad (fun _ => tt) chS cfS ds M vals D px 0%%Z) %s %s" % (
             "(IErr %s)" % zlit(post[1]) if post[0] == "err" else impl_ext(post[1]), zlit(post_calls))))
         if wr[0] == "err":
             wl = "(IErr %s)" % zlit(wr[1])
@@ -697,11 +700,10 @@ def run_case(ctx, d, exprs, metas, tag):
             wl = "(IVal (@WNegInf Q))"
         else:
             wl = "(IVal (WFin %s))" % qlit(wr[1])
-        e.append(("wrapper", fp + "wrun_agree (wrapper_evaluate QO lnT sqT piq mk rad (fun _ => tt) ch cf ds %s M vals D px 0%%Z) %s %s" % (
+        e.append(("wrapper", "wrun_agree (wrapper_evaluate QO lnT sqT piq mk rad (fun _ => tt) chS cfS ds %s M vals D px 0%%Z) %s %s" % (
             blit(d["minus"]), wl, zlit(wr_calls))))
-    for what, ex in e:
-        exprs.append(ex)
-        metas.append(dict(meta, what=what, tag=tag))
+    exprs.append((prefix, [ex for _, ex in e]))
+    metas.append(dict(meta, whats=[what for what, _ in e], tag=tag))
     # ---- direct predicates on the implementation (independent of the Coq model)
     ctx.explored += 1
     if prior_calls != 0:
@@ -733,15 +735,38 @@ def run_case(ctx, d, exprs, metas, tag):
                         lnposterior=post, calls=impl["calls"]))
 
 
-def finish_batch(ctx, tagname, exprs, metas):
-    mism, errors, _ = run_mismatch_cases(tagname, REQ, exprs, chunk=60, defs=DEFS)
-    ctx.corr_cases += len(exprs)
-    for er in errors:
-        ctx.violation("corr-eval-error", "model evaluation failed: " + er[:300], dict(kind="coq-error", log=er), nofail=True)
-    for i in mism:
-        m = metas[i]
-        ctx.disagree("corr:%s:%s" % (m["what"], m["case"]["kind"]),
-                     "model and implementation disagree on %s of an %s model" % (m["what"], m["case"]["kind"]), m)
+def finish_batch(ctx, tagname, exprs, metas, chunk=40):
+    """exprs: per case (let-prefix, [bool expressions]).  One Gallina term `let ... in [b1; b2; ...]` per case
+    (the literals are shared by the checks of a case); coqc evaluates the concatenation with vm_compute and
+    prints the indices of the checks that are false."""
+    from harness.lib.coqrun import eval_files, parse_eval_blocks, parse_zlist, HEADER
+    files, index = [], []
+    for k in range(0, len(exprs), chunk):
+        part = exprs[k:k + chunk]
+        text = HEADER + REQ + "\n" + DEFS + "\n"
+        text += "Definition cases : list (list bool) :=\n " + listlit(
+            ["\n  (" + pre + listlit(["\n   (" + x + ")" for x in xs]) + ")" for pre, xs in part]) + ".\n"
+        text += ("Fixpoint bad (i : Z) (l : list bool) : list Z := match l with [] => [] | "
+                 "b :: t => if b then bad (i+1) t else i :: bad (i+1) t end.\n")
+        text += "Eval vm_compute in (bad %d (List.concat cases)).\n" % len(index)
+        files.append(("cases_%04d" % (k // chunk), text))
+        for j, (pre, xs) in enumerate(part):
+            index += [(k + j, q) for q in range(len(xs))]
+    res = eval_files(tagname, files, jobs=8)
+    ctx.corr_cases += len(index)
+    for name, rc, out in res:
+        blocks = parse_eval_blocks(out) if rc == 0 else []
+        if rc != 0 or not blocks:
+            ctx.violation("corr-eval-error", "model evaluation failed: %s rc=%d %s" % (name, rc, out[-300:]),
+                          dict(kind="coq-error", log=out[-1500:]), nofail=True)
+            continue
+        for i in parse_zlist(blocks[-1].split(":")[0]):
+            ci, q = index[i]
+            m = metas[ci]
+            what = m["whats"][q]
+            ctx.disagree("corr:%s:%s" % (what, m["case"]["kind"]),
+                         "model and implementation disagree on %s of an %s model" % (what, m["case"]["kind"]),
+                         dict(m, what=what))
 
 
 # ---------------------------------------------------------------------------------------------
@@ -750,7 +775,7 @@ def finish_batch(ctx, tagname, exprs, metas):
 def stage_generated(ctx):
     rng = ctx.subrng("cases")
     exprs, metas = [], []
-    n_exact, n_alpha = ctx.n(110, 1500), ctx.n(40, 500)
+    n_exact, n_alpha = ctx.n(110, 1200), ctx.n(40, 400)
     for k in range(n_exact + n_alpha):
         d = gen_case(rng, "exact" if k < n_exact else "alpha")
         with warnings.catch_warnings():
